@@ -43,7 +43,7 @@ impl Callbacks for Facts {
         }
         // cargo may invoke the wrapper for build scripts / other targets of the same
         // package; only lib targets of the wanted crate are exported.
-        let root = rustc_middle::ty::print::with_no_trimmed_paths!(export(tcx, &krate));
+        let root = rustc_middle::ty::print::with_no_visible_paths!(rustc_middle::ty::print::with_no_trimmed_paths!(export(tcx, &krate)));
         let mut s = String::with_capacity(1 << 24);
         root.write(&mut s);
         std::fs::write(&out, s).expect("mqfacts: cannot write facts file");
